@@ -58,9 +58,24 @@ pub fn run(ctx: &Ctx) -> Report {
         failure = failure.or(f);
     }
 
+    // 4. buffer counts on the boundaries of queue size, free space and 16 bits, on an empty, a
+    //    completely full and an all-but-one-full queue, for the smallest and the largest sizes
+    if failure.is_none() {
+        let sizes: &[u8] = if ctx.quick() { &[0, 1, 2, 5, 15] } else { &[0, 1, 2, 3, 4, 5, 8, 10, 12, 14, 15] };
+        let (st, f) = run_items(ctx, "qh", qh::boundary_cases(sizes), |c: &QCase, st| {
+            let r = qh::run_case(c, prop, st);
+            if r.is_ok() {
+                st.class("boundary_count_history");
+            }
+            r
+        });
+        stats.merge(st);
+        failure = failure.or(f);
+    }
+
     let (rule, assumptions): (&'static str, Vec<String>) = match prop {
         "C01" => (
-            "proptest histories (Add/AddFill/Fetch/Complete/Pop/...) over queue sizes 2^0..2^15 x indirect x event-idx x access-platform x legacy/modern, plus explicit >65536-submission runs; after every accepted submission the reference device walks the chain from the new ring slot and compares it with the ledger of share() results and the caller's buffers. One case = one history. Non-trivial = a history with >=1 submission made while >=1 other chain is outstanding and after >=1 completion was consumed (free list permuted; their number is the class nontrivial_submissions); distinct = hash over (size, flags, buffer counts, descriptor ids of the chain) of all such submissions of the history. Whether a multi-buffer submission on an indirect-enabled queue uses an indirect table is read off the published chain, not prescribed.",
+            "proptest histories (Add/AddFill/Fetch/Complete/Pop/...) over queue sizes 2^0..2^15 x indirect x event-idx x access-platform x legacy/modern, plus explicit >65536-submission runs and deterministic histories with buffer counts on the boundaries of queue size / free space / 16 bits (n, n+-1, 2n, 65535..65537, free, free+1) on empty, full and all-but-one-full queues up to size 32768; after every accepted submission the reference device walks the chain from the new ring slot and compares it with the ledger of share() results and the caller's buffers. One case = one history. Non-trivial = a history with >=1 submission made while >=1 other chain is outstanding and after >=1 completion was consumed (free list permuted; their number is the class nontrivial_submissions); distinct = hash over (size, flags, buffer counts, descriptor ids of the chain) of all such submissions of the history. Whether a multi-buffer submission on an indirect-enabled queue uses an indirect table is read off the published chain, not prescribed.",
             vec!["the bounce Hal returns device addresses that never equal virtual addresses".into()],
         ),
         "C02" => (
